@@ -60,6 +60,8 @@ func init() {
 func c17(r *Report, s *Sem) {
 	p := r.P
 	a := s.anchors()
+	R9 := r.Rule("R9", "addresses do not stick to envelopes: the channel's data sender hands the caller's envelope to the transport untouched — it invokes nothing on it (an address resolved in place on the first session is what the second session receives)", 1)
+	defer checkSendPathReadsOnly(r, s, R9)
 	defer r.Import(s, "C12", "R4", "R8", "what one session failed to send cannot surface in another: the JSON encoder of a TCP transport writes straight to that transport's connection wrapper — no buffer shared between transports (a pooled buffer that keeps the bytes of a failed write prefixes them to the next session's envelope)", 8)
 	defer r.Import(s, "C07", "R1", "R7", "the id a session carries is the one generated for it: every session envelope a server channel emits takes its id from channel.sessionID, which on a server channel is stored only by the constructor from the parameter the accept loop generated (never adopted from a peer's envelope)", 21)
 	R1 := r.Rule("R1", "one channel per dispatch: in the dispatch loop the session context, every stream/done accessor of the select and the Sender handed to each handler function all derive from the loop function's single channel parameter", 8)
